@@ -201,7 +201,7 @@ def oracle_es_fresh_stream(args):
     model = mudslide.models.scattering_models["simple"]()
     q = queue.Queue()
     t = mudslide.EvenSamplingTrajectory(model, [-3.0], [15.0], 0, dt=20.0, max_steps=400, queue=q, seed_sequence=args["seed"],
-                                        spawn_stack=[3], quadrature="midpoint", bounds=[-4, 4])
+                                        spawn_stack=[3], quadrature="midpoint", bounds=[-4, 4], mcsamples=int(args.get("mcsamples", 1)))
     t.simulate()
     kids = []
     while not q.empty():
@@ -210,6 +210,14 @@ def oracle_es_fresh_stream(args):
     problems = []
     if len(set(keys)) != len(keys) or tuple(t.seed_sequence.spawn_key) in keys:
         problems.append("spawned trajectories share a seed sequence: %r" % (keys,))
+    # the streams themselves: the next number each child (and the parent) would draw
+    def peek(tr):
+        bg = type(tr.random_state.bit_generator)()
+        bg.state = tr.random_state.bit_generator.state
+        return float(np.random.Generator(bg).random())
+    draws = [peek(k) for k in kids] + [peek(t)]
+    if len(set(draws)) != len(draws):
+        problems.append("trajectories of one tree would draw the same random numbers: %r" % (draws,))
     return not problems, {"children": len(kids), "keys": keys}, {"distinct": True}, "; ".join(problems) or "ok"
 
 
@@ -307,6 +315,12 @@ def run(ctx):
                  zetas=[float(v) for v in rng.random(int(rng.integers(1, 10)))])
         if a["cls"] == "TrajectoryCum":
             a["zetas"] = [float(v) * 0.05 for v in a["zetas"]]       # small thresholds: several attempts
+        if i % 4 >= 2:
+            # a supplied threshold that is exactly zero is a threshold too (never two equal neighbours: the cumulative oracle reads
+            # the thresholds off the snapshots and cannot tell a repeated value from an unchanged one)
+            a["zetas"][0] = 0.0
+            if a["cls"] == "TrajectorySH" and len(a["zetas"]) > 3:
+                a["zetas"][2] = 0.0
         ok, obs, req, text = oracle_zeta_order(a)
         ctx.case(("zeta-order", a["cls"], len(a["zetas"])), {"check": "zeta_order", "args": a})
         ctx.count("zeta_order")
@@ -327,9 +341,9 @@ def run(ctx):
             if "same log files" in text:
                 sig = "clone-shares-yaml-files"
             ctx.oracle_fail(sig, "clone", spec, obs, req, text)
-    for i in range(ctx.budget(2, 20)):
-        a = {"seed": int(rng.integers(1, 2 ** 31))}
+    for i in range(ctx.budget(4, 20)):
+        a = {"seed": int(rng.integers(1, 2 ** 31)), "mcsamples": [1, 3][i % 2]}
         ok, obs, req, text = oracle_es_fresh_stream(a)
-        ctx.case(("es-fresh-stream", obs.get("children", 0)))
+        ctx.case(("es-fresh-stream", obs.get("children", 0), a["mcsamples"]))
         if not ok:
             ctx.oracle_fail("es-stream", "es_fresh_stream", a, obs, req, text)
